@@ -1,4 +1,56 @@
-(* placeholder until the proofs are integrated *)
-From DictIO Require Import Chars Str Value Scalar.
-Theorem C14_placeholder : True. Proof. exact I. Qed.
-Print Assumptions C14_placeholder.
+(* C14  Key paths address one place: lookup, assignment and scope reduction agree. *)
+From Coq Require Import NArith ZArith List Bool.
+From DictIO Require Import Chars Str Value Scalar KeyPath SDict TreeSpec KeyPathProofs.
+Import ListNotations.
+
+(* assignment: the addressed element holds the value afterwards *)
+Theorem C14_set_same : forall t p v t', p <> [] -> set_global_key t p v = Ok t' -> get_path t' p = Some v.
+Proof. exact set_get_same. Qed.
+Print Assumptions C14_set_same.
+
+(* ... every place on a path that parts from p is unchanged *)
+Theorem C14_set_other : forall t p v t' q,
+  set_global_key t p v = Ok t' -> nonneg p = true -> nonneg q = true -> diverge p q -> get_path t' q = get_path t q.
+Proof. exact set_get_other. Qed.
+Print Assumptions C14_set_other.
+
+(* ... and the containers above an existing element keep their keys (in order) / their length *)
+Theorem C14_set_shape : forall t p v t' old r,
+  set_global_key t p v = Ok t' -> get_path t p = Some old -> strict_prefix r p ->
+  container_sig (get_path t' r) = container_sig (get_path t r).
+Proof. exact set_keeps_shape. Qed.
+Print Assumptions C14_set_shape.
+
+(* paths of length <= 10 never hit the recursion guard; a path of length 11 does *)
+Theorem C14_guard : forall t p v, (length p <= 10)%nat -> set_global_key t p v <> Raise E_Recursion.
+Proof. exact set_guard. Qed.
+Print Assumptions C14_guard.
+
+(* search: a returned path leads to a matching leaf; None means no leaf matches *)
+Theorem C14_find_sound : forall q t p, wf t = true -> find_global_key q t = Some p ->
+  exists v, get_path t p = Some (Leaf v) /\ contains q (py_str v) = true.
+Proof. exact find_sound. Qed.
+Print Assumptions C14_find_sound.
+
+Theorem C14_find_complete : forall q t, is_container t = true -> find_global_key q t = None ->
+  forall p v, get_path t p = Some (Leaf v) -> contains q (py_str v) = false.
+Proof. exact find_complete. Qed.
+Print Assumptions C14_find_complete.
+
+(* existence test: true exactly for paths of dict keys that lead to a dict *)
+Theorem C14_exists : forall kvs0 p, key_exists (Dict kvs0) p = true <-> exists kvs, get_dpath (Dict kvs0) p = Some (Dict kvs).
+Proof. exact key_exists_iff. Qed.
+Print Assumptions C14_exists.
+
+(* scope reduction: the content of the sub-dict for an existing path, the dict itself otherwise *)
+Theorem C14_scope : forall kvs scope, wf (Dict kvs) = true -> scope <> [] ->
+  reduce_scope kvs scope = match get_dpath (Dict kvs) scope with Some (Dict sub) => sub | _ => kvs end.
+Proof. exact reduce_scope_spec. Qed.
+Print Assumptions C14_scope.
+
+(* non-vacuity / guard witness *)
+Example C14_guard_witness :
+  let deep := fix mk (n : nat) : tree := match n with O => Leaf SNone | S m => Dict [(KI 0, mk m)] end in
+  set_global_key (deep 11%nat) (repeat (KI 0) 11) (Leaf SNone) = Raise E_Recursion /\
+  exists t', set_global_key (deep 10%nat) (repeat (KI 0) 10) (Leaf SNone) = Ok t'.
+Proof. split; [vm_compute; reflexivity | eexists; vm_compute; reflexivity]. Qed.
